@@ -10,18 +10,25 @@
   It is FALSE of the code in two ways, each proved below with a concrete witness (a third one,
   finding C15-F2 "field callbacks get the private token", was repaired by /repo 07968cf and is now the
   regression theorem `callback_none_regression`):
-    * `doc_gap_old_only_witness` (finding C15-F1): for a *non-update* changing handler
-      (creation/resume/deletion) the code tries `value=` on the old state as well; docs: "check the
-      resource in its current ---and only--- state". E.g. `on.create(field, value=ABSENT)` holds for
-      every creation, because `old` is `None`.
+    * `doc_gap_old_only_witness` (finding C15-F1, the RESIDUAL after /repo bd6cd41): for a *non-update*
+      changing handler (on.resume / on.delete / on.create) on a cause WITH a real old state the code
+      tries `value=` on the old state as well; docs: "check the resource in its current ---and only---
+      state". E.g. `on.resume(field, value=ABSENT)` holds for an object that HAS the field now but had
+      not when it was last handled. The creation half of the finding (`old` is `None` ⇒ "absent", so
+      `on.create(field, value=ABSENT)` held for every creation) is repaired by /repo bd6cd41:
+      `create_absent_regression`, and -- for ALL handlers and causes without an old state --
+      `creation_old_state_ignored` / `creation_value_current_only` (no guard) and
+      `match_eq_doc_creation_partial` (token guard only).
     * `doc_gap_token_literal_witness`: the private token used as a criterion matches an absent field
       (an abuse of a private name, not a finding).
   `match_eq_doc_partial` proves the statement under the guards `OldOnlyFree h c` (exactly the F1
-  disagreement) and `TokenFree h c` (per handler AND cause: the private token is not used as a
-  criterion against an absent state of the field; sufficient, not necessary);
-  `match_eq_doc_update_partial` / `match_eq_doc_nonchanging_partial` show the first guard is void for
-  update handlers and for watching/spawning/indexing causes (the second one stays: private-token abuse);
-  `oldOnlyFree_of_unchanged` / `oldOnlyFree_on_creation` are syntactic sufficient conditions.
+  residual: non-update handler, changing cause, `cause.old is not None`, the old state satisfies
+  `value=` and the current one does not) and `TokenFree h c` (per handler AND cause: the private token
+  is not used as a criterion against an absent state of the field; sufficient, not necessary);
+  `match_eq_doc_update_partial` / `match_eq_doc_nonchanging_partial` / `match_eq_doc_creation_partial`
+  show the first guard is void for update handlers, for watching/spawning/indexing causes and for causes
+  without an old state (the second one stays: private-token abuse);
+  `oldOnlyFree_of_unchanged` / `oldOnlyFree_of_noOld` are syntactic sufficient conditions.
   Equality ("changed", "equals") is Python's `==` on both sides (`PyVal.eq`): bool/int coercion can
   never show up as a doc gap (the harness keeps it out of the judged set).
 -/
@@ -108,10 +115,11 @@ def TokenFree (h : Handler V) (c : Cause V) : Prop :=
 def NoTokenLit (h : Handler V) : Prop :=
   h.value ≠ .lit none ∧ h.old ≠ .lit none ∧ h.new ≠ .lit none
 
-/-- for a non-update handler on a changing cause, the old state does not satisfy `value=` unless
-    the current one does -/
+/-- for a non-update handler on a changing cause that HAS an old state (`cause.old is not None`),
+    the old state does not satisfy `value=` unless the current one does. (Causes without an old state
+    -- creations -- need no guard since /repo bd6cd41.) -/
 def OldOnlyFree (h : Handler V) (c : Cause V) : Prop :=
-  ∀ p, h.field = some p → p ≠ [] → c.changing = true → ¬IsUpdate h →
+  ∀ p, h.field = some p → p ≠ [] → c.changing = true → ¬IsUpdate h → c.noOld = false →
     ValueHolds h.value (c.old p) → ValueHolds h.value (c.new p)
 
 -- ---------------------------------------------------------------------------------------------
@@ -245,14 +253,21 @@ theorem field_part_iff (h : Handler V) (c : Cause V) (p : List String) (hf : h.f
     obtain ⟨rN, rO, rS⟩ := hRc hc
     have vN := holdsCode_iff h.value (c.new p) rN
     have vO := holdsCode_iff h.value (c.old p) rO
-    rw [fvCore_changing h c hc]
-    simp only [hhas, hpath, Bool.not_true, Bool.false_or, Bool.or_eq_true, vN, vO]
+    have hval : matchesFieldValues h c = true ↔
+        (ValueHolds h.value (c.new p) ∨
+          (currentOnlyCore (curAtoms h c) = false ∧ ValueHolds h.value (c.old p))) := by
+      rw [fvCore_changing h c hc]
+      simp only [hhas, hpath, Bool.not_true, Bool.false_or, Bool.or_eq_true, Bool.and_eq_true,
+        Bool.not_eq_true', vN, vO]
+    rw [hval]
     by_cases hu : IsUpdate h
     · obtain ⟨h1, h2⟩ := hu
+      have hcur : currentOnlyCore (curAtoms h c) = false := by
+        simp [currentOnlyCore, curAtoms, needsChangeAttr, h1, h2]
       have oI := sideCore_iff h.old (c.old p) (rS h1).1
       have nI := sideCore_iff h.new (c.new p) (rS h1).2
-      simp only [matchesFieldChanges, fcCore, changeCore, hc, hhas, hpath, h1, h2, Bool.not_true, if_false,
-        Bool.false_or, Bool.and_eq_true, Bool.not_eq_true', oI, nI, Bool.false_eq_true]
+      simp only [hcur, true_and, matchesFieldChanges, fcCore, changeCore, hc, hhas, hpath, h1, h2, Bool.not_true,
+        if_false, Bool.false_or, Bool.and_eq_true, Bool.not_eq_true', oI, nI, Bool.false_eq_true]
       constructor
       · rintro ⟨hv, ⟨hch, ho⟩, hn⟩
         exact ⟨fun _ _ => ⟨hch, hv.symm⟩, fun hne => absurd ⟨hc, h1, h2⟩ hne, fun _ _ => ⟨ho, hn⟩⟩
@@ -261,6 +276,11 @@ theorem field_part_iff (h : Handler V) (c : Cause V) (p : List String) (hf : h.f
         obtain ⟨ho, hn⟩ := fs.sides hc h1
         exact ⟨hv.symm, ⟨ha, ho⟩, hn⟩
     · have hnu : ¬(c.changing = true ∧ IsUpdate h) := fun x => hu x.2
+      have hcur : currentOnlyCore (curAtoms h c) = c.noOld := by
+        cases h1 : h.changing <;> cases h2 : h.fieldNeedsChange <;>
+          simp [currentOnlyCore, curAtoms, needsChangeAttr, h1, h2]
+        exact absurd ⟨h1, h2⟩ hu
+      rw [hcur]
       cases h1 : h.changing with
       | false =>
         simp only [matchesFieldChanges, fcCore, h1, Bool.not_false, if_true, and_true]
@@ -268,9 +288,9 @@ theorem field_part_iff (h : Handler V) (c : Cause V) (p : List String) (hf : h.f
         · intro hv
           refine ⟨fun _ hu' => absurd hu' hu, fun _ => ?_, fun _ h1' => by simp [h1] at h1'⟩
           simp only [hc, if_true]
-          rcases hv with hv | hv
+          rcases hv with hv | ⟨hno, hv⟩
           · exact hv
-          · exact hOld p hf hp hc hu hv
+          · exact hOld p hf hp hc hu hno hv
         · intro fs
           exact Or.inl (by simpa [hc] using fs.other hnu)
       | true =>
@@ -286,9 +306,9 @@ theorem field_part_iff (h : Handler V) (c : Cause V) (p : List String) (hf : h.f
         · rintro ⟨hv, ho, hn⟩
           refine ⟨fun _ hu' => absurd hu' hu, fun _ => ?_, fun _ _ => ⟨ho, hn⟩⟩
           simp only [hc, if_true]
-          rcases hv with hv | hv
+          rcases hv with hv | ⟨hno, hv⟩
           · exact hv
-          · exact hOld p hf hp hc hu hv
+          · exact hOld p hf hp hc hu hno hv
         · intro fs
           obtain ⟨ho, hn⟩ := fs.sides hc h1
           exact ⟨Or.inl (by simpa [hc] using fs.other hnu), ho, hn⟩
@@ -333,6 +353,13 @@ theorem match_eq_doc_update_partial (h : Handler V) (c : Cause V) (hu : IsUpdate
     (hR : TokenFree h c) : matchHandler h c = true ↔ DocSpec h c :=
   match_eq_doc_partial h c hR (fun _ _ _ _ hnu => absurd hu hnu)
 
+/-- for causes without an old state (`cause.old is None`: creations) the first guard is void
+    (/repo bd6cd41): match = the documented criteria for EVERY handler kind; only the private-token
+    guard stays -/
+theorem match_eq_doc_creation_partial (h : Handler V) (c : Cause V) (hno : c.noOld = true)
+    (hR : TokenFree h c) : matchHandler h c = true ↔ DocSpec h c :=
+  match_eq_doc_partial h c hR (fun _ _ _ _ _ hno' => by simp [hno] at hno')
+
 /-- for watching / spawning / indexing causes (the object's only state) the first guard is void -/
 theorem match_eq_doc_nonchanging_partial (h : Handler V) (c : Cause V) (hc : c.changing = false)
     (hR : TokenFree h c) : matchHandler h c = true ↔ DocSpec h c :=
@@ -345,17 +372,42 @@ theorem tokenFree_of_noTokenLit (h : Handler V) (c : Cause V) (hLit : NoTokenLit
     fun _ => fun _ => hLit.1⟩
 
 /-- syntactic sufficient conditions for the old-state guard (finding C15-F1): the field is unchanged,
-    or the object is being created (no old state) and `value=` is not ABSENT / a callback -/
+    or the cause has no old state (a creation) -/
 theorem oldOnlyFree_of_unchanged (h : Handler V) (c : Cause V)
     (hsame : ∀ p, h.field = some p → c.old p = c.new p) : OldOnlyFree h c := by
-  intro p hf _ _ _ hv; rw [← hsame p hf]; exact hv
+  intro p hf _ _ _ _ hv; rw [← hsame p hf]; exact hv
 
-theorem oldOnlyFree_on_creation (h : Handler V) (c : Cause V)
-    (hnew : ∀ p, h.field = some p → c.old p = none)
-    (hval : h.value = .unset ∨ h.value = .present ∨ ∃ v, h.value = .lit (some v)) : OldOnlyFree h c := by
-  intro p hf _ _ _ hv
-  rw [hnew p hf] at hv
-  rcases hval with e | e | ⟨v, e⟩ <;> rw [e] at hv <;> simp [ValueHolds] at hv
+theorem oldOnlyFree_of_noOld (h : Handler V) (c : Cause V) (hno : c.noOld = true) : OldOnlyFree h c := by
+  intro p _ _ _ _ hno'; simp [hno] at hno'
+
+/- THE CLAUSE "field/value criteria (current value; for updates old or new value)" ON CREATIONS, at
+   full strength (the repaired half of finding C15-F1, /repo bd6cd41). -/
+
+/-- FULL, no guard: on a cause without an old state the `value=` verdict of a non-update handler
+    (on.create / on.resume / on.delete; also on.event-like ones) does not depend on what the
+    non-existent old state "resolves" to -- the old side is not consulted at all -/
+theorem creation_old_state_ignored (h : Handler V) (c : Cause V) (hc : c.changing = true)
+    (hno : c.noOld = true) (hnu : ¬IsUpdate h) (o' : List String → Option V) :
+    matchesFieldValues h { c with old := o' } = matchesFieldValues h c := by
+  have hna : needsChangeAttr h = false := by
+    cases h1 : h.changing <;> cases h2 : h.fieldNeedsChange <;> simp [needsChangeAttr, h1, h2]
+    exact absurd ⟨h1, h2⟩ hnu
+  rw [fvCore_creation h c hc hno hna, fvCore_creation h { c with old := o' } hc hno hna]
+
+/-- FULL for every documented criterion (`hdoc` is a domain restriction, not a behavioural guard: the
+    private absent marker cannot be written as `value=` through documented names): on a cause without
+    an old state, the `value=` criterion of a non-update handler holds iff it holds on the CURRENT
+    value. In particular `on.create(field, value=ABSENT)` holds iff the field is absent now. -/
+theorem creation_value_current_only (h : Handler V) (c : Cause V) (hc : c.changing = true)
+    (hno : c.noOld = true) (hnu : ¬IsUpdate h) (p : List String) (hf : h.field = some p) (hp : p ≠ [])
+    (hdoc : h.value ≠ .lit none) :
+    matchesFieldValues h c = true ↔ ValueHolds h.value (c.new p) := by
+  have hna : needsChangeAttr h = false := by
+    cases h1 : h.changing <;> cases h2 : h.fieldNeedsChange <;> simp [needsChangeAttr, h1, h2]
+    exact absurd ⟨h1, h2⟩ hnu
+  have hhas : hasField h = true := (hasField_true_iff h).2 ⟨p, hf, hp⟩
+  rw [fvCore_creation h c hc hno hna, path_of_field h p hf, hhas]
+  simpa using holdsCode_iff h.value (c.new p) (fun _ => hdoc)
 
 /-- match ⇒ prematch (prematch drops exactly the change-related conjunct) -/
 theorem prematch_of_match (h : Handler V) (c : Cause V) (hm : matchHandler h c = true) :
@@ -446,6 +498,113 @@ theorem selected_once (hs : List (Handler V)) (c : Cause V) (ex : List String) :
     ((getHandlersChanging hs c ex).map Handler.key).Nodup ∧
     ((getHandlersPlain hs c ex).map Handler.key).Nodup :=
   ⟨dedup_nodup _, dedup_nodup _⟩
+
+-- ---- the cause-kind gate of the changing registry, spelled out (/repo 17e5c42) ---------------------
+/- "The set of handlers invoked is exactly the set whose declared criteria all hold" -- for the
+   changing registry the criteria are the cause kind (the gate) and the filters (`match`). /repo
+   345a874 (the repair of "field handlers fire on deletion") had made the gate skip EVERY reason-less
+   non-resuming handler on an object marked for deletion. Sub-handlers (`@kopf.subhandler`,
+   `kopf.register`, `kopf.execute(fns=…)`) are reason-less and non-resuming too and are selected from
+   their sub-registry by the same loop: the sub-handlers of `@kopf.on.delete` handlers (and of
+   `@kopf.on.resume(deleted=True)` handlers on marked objects) were never selected -- finding C15-F8,
+   repaired by /repo 17e5c42: only handlers with `field_needs_change` are skipped. `gate_iff` /
+   `selected_on_deletion_iff` say who is skipped and who is selected on a marked object;
+   `subhandler_gate` / `subhandler_selected_iff` / `subhandlers_selected_iff` are the unguarded
+   statements for the sub-handler shape; `subhandler_deletion_regression` is the witness that the
+   345a874 gate rejected what is selected now (replayed by corpus/C15/F8_*.json). -/
+
+/-- `@kopf.on.field`: no reason of its own, not resuming, needs its field changed. (The sub-handlers
+    of `@kopf.on.field` / `@kopf.on.update` inherit `field_needs_change` and have the same shape; their
+    parents never run on an object marked for deletion.) -/
+def IsFieldHandler (h : Handler V) : Prop :=
+  h.kind.reason = none ∧ h.kind.initial = false ∧ h.fieldNeedsChange = true
+
+/-- a sub-handler as `@kopf.subhandler` / `kopf.register` / `kopf.execute(fns=…)` build it:
+    `reason=None`, `initial=None` (its `field_needs_change` is its parent's, or `None`) -/
+def IsSubHandler (h : Handler V) : Prop := h.kind.reason = none ∧ h.kind.initial = false
+
+omit [PyVal V] in
+/-- the gate in words: the handler's reason (if any) is the cause's; a resuming handler needs an initial
+    cause and, on a marked object, `deleted=True`; a field handler is skipped on a marked object --
+    and NOTHING else is skipped -/
+theorem gate_iff (h : Handler V) (c : Cause V) :
+    gate h c = true ↔
+      (∀ r, h.kind.reason = some r → r = c.kind.reason) ∧
+      (h.kind.initial = true → c.kind.initial = true ∧ (c.kind.marked = true → h.kind.deletedOptIn = true)) ∧
+      ¬(IsFieldHandler h ∧ c.kind.marked = true) := by
+  unfold gate IsFieldHandler
+  cases hr : h.kind.reason with
+  | none =>
+    cases hi : h.kind.initial <;> cases ci : c.kind.initial <;> cases cm : c.kind.marked <;>
+      cases hd : h.kind.deletedOptIn <;> cases nc : h.fieldNeedsChange <;> simp
+  | some r =>
+    rw [show (∀ r', some r = some r' → r' = c.kind.reason) ↔ (some r == some c.kind.reason) = true by
+      simp only [beq_iff_eq, Option.some.injEq, forall_eq']]
+    cases (some r == some c.kind.reason) <;> cases hi : h.kind.initial <;> cases ci : c.kind.initial <;>
+      cases cm : c.kind.marked <;> cases hd : h.kind.deletedOptIn <;> cases nc : h.fieldNeedsChange <;> simp
+
+/-- ON AN OBJECT MARKED FOR DELETION a (function, id) pair is selected iff some registration of it is
+    not excluded, is bound to no other reason than the cause's, is not a resuming handler outside an
+    initial cause or without `deleted=True`, is NOT A FIELD HANDLER, and matches: resuming handlers
+    without the opt-in and field handlers are skipped; every other handler whose criteria hold is
+    selected -- reason-less sub-handlers included -/
+theorem selected_on_deletion_iff (hs : List (Handler V)) (c : Cause V) (ex : List String) (k : Nat × String)
+    (hmk : c.kind.marked = true) :
+    (∃ h' ∈ getHandlersChanging hs c ex, h'.key = k) ↔
+      ∃ h ∈ hs, h.key = k ∧ h.id ∉ ex ∧ (∀ r, h.kind.reason = some r → r = c.kind.reason) ∧
+        (h.kind.initial = true → c.kind.initial = true ∧ h.kind.deletedOptIn = true) ∧
+        ¬IsFieldHandler h ∧ matchHandler h c = true := by
+  rw [(selected_iff hs c ex k).1]
+  constructor
+  · rintro ⟨h, hm, hk, hex, hg, hmt⟩
+    obtain ⟨g1, g2, g3⟩ := (gate_iff h c).1 hg
+    exact ⟨h, hm, hk, hex, g1, fun hi => ⟨(g2 hi).1, (g2 hi).2 hmk⟩, fun hf => g3 ⟨hf, hmk⟩, hmt⟩
+  · rintro ⟨h, hm, hk, hex, g1, g2, g3, hmt⟩
+    exact ⟨h, hm, hk, hex,
+      (gate_iff h c).2 ⟨g1, fun hi => ⟨(g2 hi).1, fun _ => (g2 hi).2⟩, fun hf => g3 hf.1⟩, hmt⟩
+
+omit [PyVal V] in
+/-- UNGUARDED (the hypothesis is the shape): a sub-handler passes the gate on every cause, except
+    that one carrying an update parent's `field_needs_change` is skipped on a marked object -/
+theorem subhandler_gate (h : Handler V) (c : Cause V) (hsub : IsSubHandler h) :
+    gate h c = !(h.fieldNeedsChange && c.kind.marked) := by
+  obtain ⟨hr, hi⟩ := hsub
+  simp [gate, hr, hi]
+
+/-- UNGUARDED: a sub-handler of a creation / deletion / resuming handler, or one made by
+    `kopf.execute(fns=…)` (`field_needs_change` falsy), is selected iff it is not excluded and its
+    declared criteria hold (`match`) -- on EVERY cause, marked for deletion or not -/
+theorem subhandler_selected_iff (h : Handler V) (c : Cause V) (ex : List String) (hsub : IsSubHandler h)
+    (hnf : h.fieldNeedsChange = false) :
+    selChanging c ex h = true ↔ h.id ∉ ex ∧ matchHandler h c = true := by
+  simp [selChanging, subhandler_gate h c hsub, hnf]
+
+/-- … and for a whole sub-registry (also with sub-handlers of update parents, on unmarked objects):
+    exactly the sub-handlers whose declared criteria hold are selected, modulo dedup -/
+theorem subhandlers_selected_iff (hs : List (Handler V)) (c : Cause V) (ex : List String)
+    (hsub : ∀ h ∈ hs, IsSubHandler h ∧ (h.fieldNeedsChange = true → c.kind.marked = false))
+    (k : Nat × String) :
+    (∃ h' ∈ getHandlersChanging hs c ex, h'.key = k) ↔
+      ∃ h ∈ hs, h.key = k ∧ h.id ∉ ex ∧ matchHandler h c = true := by
+  rw [(selected_iff hs c ex k).1]
+  have hg : ∀ h ∈ hs, gate h c = true := by
+    intro h hm
+    obtain ⟨s, f⟩ := hsub h hm
+    rw [subhandler_gate h c s]
+    cases hn : h.fieldNeedsChange
+    · rfl
+    · simp [f hn]
+  constructor
+  · rintro ⟨h, hm, hk, hex, _, hmt⟩; exact ⟨h, hm, hk, hex, hmt⟩
+  · rintro ⟨h, hm, hk, hex, hmt⟩; exact ⟨h, hm, hk, hex, hg h hm, hmt⟩
+
+/-- the gate as /repo 345a874 had it (before 17e5c42): EVERY reason-less non-resuming handler is
+    skipped on a marked object. Kept only for the regression theorem below. -/
+def gate345a874 (h : Handler V) (c : Cause V) : Bool :=
+  (h.kind.reason == none || h.kind.reason == some c.kind.reason) &&
+  !(h.kind.initial && !c.kind.initial) &&
+  !(h.kind.initial && c.kind.marked && !h.kind.deletedOptIn) &&
+  !(h.kind.reason == none && !h.kind.initial && c.kind.marked)
 
 -- ---- stealth -------------------------------------------------------------------------------------
 /- FULL STATEMENT of the clause "objects matched by no handler are left untouched: no annotations,
@@ -682,13 +841,15 @@ def wH (changing : Bool) (value : VCrit J) (fnc : Bool) (old new : VCrit J := .u
   { fn := 0, func := 0, id := "h", changing := changing, selector := some true, subresourceOk := true,
     labels := labels, annotations := none, «when» := none, field := some ["spec", "f"], value := value,
     old := old, new := new, fieldNeedsChange := fnc, requiresFinalizer := rf,
-    kind := ⟨none, false, false⟩ }
+    kind := { reason := none, initial := false, deletedOptIn := false } }
 
-/-- a cause whose field `spec.f` resolves to the given values (every other path likewise) -/
-def wC (changing : Bool) (body old new : Option J) (label : Option String := none) : Cause J :=
-  { changing := changing, labels := fun k => if k = "lk" then label else none,
+/-- a cause whose field `spec.f` resolves to the given values (every other path likewise);
+    `noOld`: `cause.old is None` (then `old` must be `none`, as `dicts.resolve(None, …)` gives) -/
+def wC (changing : Bool) (body old new : Option J) (label : Option String := none) (noOld : Bool := false) :
+    Cause J :=
+  { changing := changing, noOld := noOld, labels := fun k => if k = "lk" then label else none,
     annotations := fun _ => none, body := fun _ => body, old := fun _ => old, new := fun _ => new,
-    kind := ⟨.create, false, false⟩ }
+    kind := { reason := .create, initial := false, marked := false } }
 
 /-- the object flags of a cycle: own finalizer, carried patch, lingering daemon (rest: false/empty) -/
 def wO (blocked : Bool := false) (carried : Bool := false) (lingering : Bool := false) : Obj :=
@@ -699,17 +860,54 @@ def isNoneCb : Option J → Bool
   | some .null => true
   | _ => false
 
-/-- C15-F1: `on.create(field='spec.f', value=ABSENT)` on an object created WITH the field:
-    the code selects it (old is None ⇒ absent), the documented criteria do not hold. -/
+/-- C15-F1 (the residual after /repo bd6cd41): `on.resume(field='spec.f', value=ABSENT)` (likewise
+    on.delete / on.create) on a cause WITH an old state: the object has the field now (`'x'`), the
+    last-handled state had not: the code selects the handler (the old state satisfies `value=`), the
+    documented criteria ("its current ---and only--- state") do not hold. The guard `OldOnlyFree` of
+    `match_eq_doc_partial` is necessary. Replayed on the real code by corpus/C15/F1.json. -/
 theorem doc_gap_old_only_witness :
-    ∃ (h : Handler J) (c : Cause J), TokenFree h c ∧ ¬IsUpdate h ∧ c.changing = true ∧
-      matchHandler h c = true ∧ ¬DocSpec h c := by
-  refine ⟨wH true .absent false, wC true (some (.str "x")) none (some (.str "x")), ?_, ?_, rfl, rfl, ?_⟩
+    ∃ (h : Handler J) (c : Cause J), TokenFree h c ∧ ¬IsUpdate h ∧ c.changing = true ∧ c.noOld = false ∧
+      matchHandler h c = true ∧ ¬DocSpec h c ∧ ¬OldOnlyFree h c := by
+  refine ⟨wH true .absent false, wC true (some (.str "x")) none (some (.str "x")), ?_, ?_, rfl, rfl, by decide,
+    ?_, ?_⟩
   · exact tokenFree_of_noTokenLit _ _ ⟨(by intro e; cases e), (by intro e; cases e), (by intro e; cases e)⟩
   · rintro ⟨_, e⟩; cases e
   · intro ds
     have := (ds.field ["spec", "f"] rfl (by simp)).other (by rintro ⟨_, _, e⟩; cases e)
     simp [wH, wC, ValueHolds] at this
+  · intro hO
+    have := hO ["spec", "f"] rfl (by simp) rfl (by rintro ⟨_, e⟩; cases e) rfl
+    simp [wH, wC, ValueHolds] at this
+
+/-- REGRESSION of the repaired half of finding C15-F1 (/repo bd6cd41): docs/filters.rst's
+    `created_without_field` -- `on.create(field='spec.f', value=ABSENT)` -- on an object created WITH
+    the field (`cause.old is None`): the handler is NOT selected and the documented criteria do not
+    hold: code and docs agree (before the repair: `matchHandler … = true`, "absent in the non-existent
+    old state"). Created WITHOUT the field it is selected. Replayed by
+    corpus/C15/r01-create-absent-with-field.json with the strict oracle. -/
+theorem create_absent_regression :
+    let h := wH true .absent false
+    (matchHandler h (wC true (some (.str "x")) none (some (.str "x")) none true) = false ∧
+      ¬DocSpec h (wC true (some (.str "x")) none (some (.str "x")) none true)) ∧
+    (matchHandler h (wC true none none none none true) = true ∧ DocSpec h (wC true none none none none true)) := by
+  have hT : ∀ c : Cause J, TokenFree (wH true .absent false) c := fun c =>
+    tokenFree_of_noTokenLit _ c ⟨(by intro e; cases e), (by intro e; cases e), (by intro e; cases e)⟩
+  refine ⟨⟨by decide, ?_⟩, by decide, ?_⟩
+  · rw [← match_eq_doc_creation_partial _ _ rfl (hT _)]; decide
+  · rw [← match_eq_doc_creation_partial _ _ rfl (hT _)]; decide
+
+-- `on.field(field, value=ABSENT)` (an update handler) on the same creation keeps the documented
+-- old-or-new reading: "absent before, present now" is a match
+example : matchHandler (wH true .absent true) (wC true (some (.str "x")) none (some (.str "x")) none true) = true := by
+  decide
+-- non-vacuity of `creation_value_current_only` / `creation_old_state_ignored`
+example :
+    let h := wH true .absent false
+    let c := wC true (some (.str "x")) none (some (.str "x")) none true
+    c.changing = true ∧ c.noOld = true ∧ ¬IsUpdate h ∧ h.field = some ["spec", "f"] ∧ h.value ≠ .lit none := by
+  refine ⟨rfl, rfl, ?_, rfl, ?_⟩
+  · rintro ⟨_, e⟩; cases e
+  · intro e; cases e
 
 /-- REGRESSION of the repaired finding C15-F2 (/repo 07968cf): a field callback `v is None` on an
     absent field is passed `None` and holds — the code and the documented criteria agree (before the
@@ -867,6 +1065,47 @@ theorem bound_method_once_regression :
   refine ⟨[{ wH true .unset false with fn := 1, func := 7, field := none },
            { wH true .unset false with fn := 2, func := 7, field := none }],
           wC true none none none, rfl, by decide⟩
+
+/-- a sub-handler as `@kopf.subhandler(id=…)` builds it inside a handler with id `del`: no selector,
+    no reason, not resuming, `field_needs_change` = the parent's -/
+def wSub (n : Nat) (id : String) (fnc : Bool := false) (labels : Option (List (String × MCrit)) := none) :
+    Handler J :=
+  { wH true .unset fnc .unset .unset labels with fn := n, func := n, id := id, selector := none, field := none }
+
+/-- the cause of an object marked for deletion that still carries the own finalizer -/
+def wDel (label : Option String := none) : Cause J :=
+  { wC true none none none label with kind := { reason := .delete, initial := false, marked := true } }
+
+/-- REGRESSION of the repaired finding C15-F8 (/repo 17e5c42): the sub-registry of an
+    `@kopf.on.delete` handler `del` with two sub-handlers `del/a`, `del/b` (the second one filtered by
+    `labels={'lk': PRESENT}`) on the DELETE cause of a marked, labelled object: both have the
+    sub-handler shape, both match, BOTH ARE SELECTED -- and the gate of /repo 345a874 rejected both
+    (so the parent finished at once and the finalizer was released without their work). Without the
+    label only `del/a` is selected: the filters, not the cause kind, decide. Replayed on the real code by
+    corpus/C15/F8_delete_subhandlers_selected.json (fails when 17e5c42 is reverted). -/
+theorem subhandler_deletion_regression :
+    let hs := [wSub 1 "del/a", wSub 2 "del/b" false (some [("lk", .present)])]
+    (wDel (some "v")).kind.marked = true ∧
+    (∀ h ∈ hs, IsSubHandler h ∧ h.fieldNeedsChange = false ∧ matchHandler h (wDel (some "v")) = true) ∧
+    ids (getHandlersChanging hs (wDel (some "v")) []) = ["del/a", "del/b"] ∧
+    ids (getHandlersChanging hs (wDel none) []) = ["del/a"] ∧
+    (∀ h ∈ hs, gate345a874 h (wDel (some "v")) = false) := by
+  refine ⟨rfl, ?_, by decide, by decide, ?_⟩ <;>
+    (intro h hh; simp only [List.mem_cons, List.not_mem_nil, or_false] at hh
+     rcases hh with rfl | rfl <;> first | decide | exact ⟨⟨rfl, rfl⟩, rfl, by decide⟩)
+
+-- … while an `@kopf.on.field` handler (and a sub-handler that inherited `field_needs_change` from an
+-- update parent) stays skipped on the marked object, and is selected on an unmarked one
+example : gate ({ wH true .unset true with field := none } : Handler J) (wDel none) = false ∧
+    gate (wSub 1 "upd/a" true) (wDel none) = false ∧
+    gate (wSub 1 "upd/a" true) (wC true none none none) = true ∧
+    IsFieldHandler ({ wH true .unset true with field := none } : Handler J) := by
+  exact ⟨by decide, by decide, by decide, rfl, rfl, rfl⟩
+-- non-vacuity of `selected_on_deletion_iff` / `subhandlers_selected_iff` / `subhandler_selected_iff`
+example : (wDel none).kind.marked = true ∧ IsSubHandler (wSub 1 "del/a") ∧
+    (wSub 1 "del/a").fieldNeedsChange = false ∧ selChanging (wDel none) [] (wSub 1 "del/a") = true ∧
+    selChanging (wDel none) ["del/a"] (wSub 1 "del/a") = false :=
+  ⟨rfl, ⟨rfl, rfl⟩, rfl, by decide, by decide⟩
 
 end Witnesses
 
